@@ -892,6 +892,24 @@ def subst(v, mapping: dict):
         return mapping[v]
     if not isinstance(v, tuple):
         return v
+    if len(v) == 4 and v[0] == "comp" and isinstance(v[3], tuple) and any(isinstance(k, tuple) and k and k[0] == "bv" for k in mapping):
+        # capture-avoiding: a comprehension that binds a variable of the same identity (the same sub-term shared between two places,
+        # e.g. `[y[i] for i in idxs]` inside a map that was itself composed over `idxs`) keeps its own variable
+        m = mapping
+        gens = []
+        for g in v[3]:
+            if not (isinstance(g, tuple) and len(g) == 3):
+                break
+            tg, it, ifs = g
+            it2 = subst(it, m) if isinstance(it, tuple) else it
+            bound = {x for x in walk(tg) if isinstance(x, tuple) and x and x[0] == "bv"} if isinstance(tg, tuple) else set()
+            if bound & set(m):
+                m = {k: x for k, x in m.items() if k not in bound}
+            gens.append((tg, it2, tuple(subst(c, m) if isinstance(c, tuple) else c for c in ifs)))
+        else:
+            if m is not mapping:
+                out = ("comp", v[1], subst(v[2], m) if isinstance(v[2], tuple) else v[2], tuple(gens))
+                return mapping.get(out, out)
     out = tuple(subst(x, mapping) if isinstance(x, tuple) else x for x in v)
     return mapping.get(out, out)
 
